@@ -316,7 +316,7 @@ func genC03x(c *Ctx) {
 		}
 	}
 	// --- 2. empty reserves (flat and capstone separately) and opening plies, on random boards
-	m := c.Scale(640, 32000)
+	m := c.Scale(640, 24000)
 	for j := 0; j < m; j++ {
 		base := randomPosition(c.R)
 		r := base.VerifRaw()
